@@ -19,3 +19,106 @@ pub open spec fn spec_sub(x: Decimal, y: Decimal) -> Decimal {
     let m = max_u8(x.n_frac_digits, y.n_frac_digits);
     Decimal { coeff: (at_scale(x, m) - at_scale(y, m)) as i128, n_frac_digits: m }
 }
+
+// ---- C03 / C04: division. value(x)/value(y) = (cx * 10^q) / (cy * 10^p); coefficient at n fractional digits
+/// numerator (sign of the divisor moved to the numerator) of the exact quotient scaled by 10^n
+pub open spec fn div_num(x: Decimal, y: Decimal, n: int) -> int {
+    (if y.coeff < 0 { -(x.coeff as int) } else { x.coeff as int }) * pow10((y.n_frac_digits + n) as nat)
+}
+
+pub open spec fn div_den(x: Decimal, y: Decimal) -> int {
+    abs_int(y.coeff as int) * pow10(x.n_frac_digits as nat)
+}
+
+/// the exact quotient rounded ONCE to n fractional digits, as coefficient
+pub open spec fn div_coeff(x: Decimal, y: Decimal, n: int, mode: RoundingMode) -> int {
+    round_div(div_num(x, y, n), div_den(x, y), mode)
+}
+
+/// remove trailing fractional zeros
+pub open spec fn strip(c: int, n: nat) -> (int, nat)
+    decreases n
+{
+    if c == 0 { (0, 0) } else if n > 0 && c % 10 == 0 { strip(c / 10, (n - 1) as nat) } else { (c, n) }
+}
+
+pub open spec fn is_one(y: Decimal) -> bool { y.coeff == pow10(y.n_frac_digits as nat) }
+
+pub open spec fn ok_div_rounded(x: Decimal, y: Decimal, n: int, mode: RoundingMode) -> bool {
+    n <= 18 && y.coeff != 0 && (x.coeff == 0 || in_coeff(div_coeff(x, y, n, mode)))
+}
+
+/// dev-profile form: if the call returned, the result fits (at coefficient -2^127, outside Decimal::MIN..=MAX, both outcomes are accepted)
+pub open spec fn ok_div_rounded_ret(x: Decimal, y: Decimal, n: int, mode: RoundingMode) -> bool {
+    n <= 18 && y.coeff != 0 && (x.coeff == 0 || in_i128(div_coeff(x, y, n, mode)))
+}
+
+pub open spec fn spec_div_rounded(x: Decimal, y: Decimal, n: int, mode: RoundingMode) -> Decimal {
+    if x.coeff == 0 { Decimal { coeff: 0, n_frac_digits: 0 } }
+    else { Decimal { coeff: div_coeff(x, y, n, mode) as i128, n_frac_digits: n as u8 } }
+}
+
+pub open spec fn ok_div(x: Decimal, y: Decimal, mode: RoundingMode) -> bool {
+    y.coeff != 0 && (x.coeff == 0 || is_one(y) || in_coeff(div_coeff(x, y, 18, mode)))
+}
+
+pub open spec fn ok_div_ret(x: Decimal, y: Decimal, mode: RoundingMode) -> bool {
+    y.coeff != 0 && (x.coeff == 0 || is_one(y) || in_i128(div_coeff(x, y, 18, mode)))
+}
+
+pub open spec fn spec_div(x: Decimal, y: Decimal, mode: RoundingMode) -> Decimal {
+    if x.coeff == 0 { Decimal { coeff: 0, n_frac_digits: 0 } }
+    else if is_one(y) { x }
+    else {
+        let s = strip(div_coeff(x, y, 18, mode), 18);
+        Decimal { coeff: s.0 as i128, n_frac_digits: s.1 as u8 }
+    }
+}
+
+// ---- C02 / C04: multiplication. value(x)*value(y) = (cx*cy) / 10^(p+q)
+pub open spec fn mul_scale(x: Decimal, y: Decimal, n: int) -> int {
+    if n >= x.n_frac_digits + y.n_frac_digits { x.n_frac_digits + y.n_frac_digits } else { n }
+}
+
+/// exact product rounded once to at most n fractional digits, as coefficient at scale mul_scale
+pub open spec fn mul_coeff(x: Decimal, y: Decimal, n: int, mode: RoundingMode) -> int {
+    let pq = x.n_frac_digits + y.n_frac_digits;
+    if n >= pq { x.coeff * y.coeff } else { round_div(x.coeff * y.coeff, pow10((pq - n) as nat), mode) }
+}
+
+pub open spec fn is_zero(x: Decimal) -> bool { x.coeff == 0 }
+
+/// operators `*` / `*=` on two Decimals (n = 18), with the documented zero / one short-cuts
+pub open spec fn ok_mul(x: Decimal, y: Decimal, mode: RoundingMode) -> bool {
+    is_zero(x) || is_zero(y) || is_one(x) || is_one(y) || in_coeff(mul_coeff(x, y, 18, mode))
+}
+
+pub open spec fn ok_mul_ret(x: Decimal, y: Decimal, mode: RoundingMode) -> bool {
+    is_zero(x) || is_zero(y) || is_one(x) || is_one(y) || in_i128(mul_coeff(x, y, 18, mode))
+}
+
+pub open spec fn mul_general(x: Decimal, y: Decimal, n: int, mode: RoundingMode) -> Decimal {
+    Decimal { coeff: mul_coeff(x, y, n, mode) as i128, n_frac_digits: mul_scale(x, y, n) as u8 }
+}
+
+/// the result of x * y; when both operands are one either of them is acceptable (value-equal)
+pub open spec fn mul_result_ok(x: Decimal, y: Decimal, mode: RoundingMode, r: Decimal) -> bool {
+    if is_zero(x) || is_zero(y) { r == (Decimal { coeff: 0, n_frac_digits: 0 }) }
+    else if is_one(x) && is_one(y) { r == x || r == y }
+    else if is_one(y) { r == x }
+    else if is_one(x) { r == y }
+    else { r == mul_general(x, y, 18, mode) }
+}
+
+/// deterministic choice used as the vstd `mul_spec` value (the code tests the right operand first)
+pub open spec fn spec_mul(x: Decimal, y: Decimal, mode: RoundingMode) -> Decimal {
+    if is_zero(x) || is_zero(y) { Decimal { coeff: 0, n_frac_digits: 0 } }
+    else if is_one(y) { x }
+    else if is_one(x) { y }
+    else { mul_general(x, y, 18, mode) }
+}
+
+/// Decimal * integer: exact, the Decimal's scale, no short-cuts
+pub open spec fn spec_mul_int(x: Decimal, y: Decimal) -> Decimal {
+    Decimal { coeff: (x.coeff * y.coeff) as i128, n_frac_digits: (x.n_frac_digits + y.n_frac_digits) as u8 }
+}
